@@ -8,8 +8,9 @@ PROPS = {
         'oracle': 'C18',
         'decided': ['BitEnc (every width 1..=8): new, with_capacity, push, push_values, set, get, clear, iter + BitEncIter::next, nr_blocks/nr_symbols/len/is_empty — observationally a Vec<u8> of masked values, block count consistent',
                     'SmallInts<i8, isize> (the LCP-array instantiation): new/default, with_capacity, from_elem, push, set, get, len, is_empty, iter + Iter::next, decompress (rule R49: iter().collect() -> next() loop) — observationally a Vec<isize> for small, equal-to-max, larger and negative values',
-                    'FenwickTree<u64, Op> for any associative-commutative Op: new, get, set — get(q) is the fold of all updates at indices <= q (prefix postcondition over ALL prefixes per set); MaxOp shown to satisfy the laws'],
-        'undecided': ['SmallInts at (S, B) instantiations other than (i8, isize)', 'FenwickTree with SumOp: overflow-freedom of u64 addition needs a bound on the total that the API does not state; other element types T'],
+                    'FenwickTree<u64, Op> for any associative-commutative Op: new, get, set — get(q) is the fold of all updates at indices <= q (prefix postcondition over ALL prefixes per set); MaxOp shown to satisfy the laws (its operations are always defined: lemma_max_ok)',
+                    'FenwickTree<u64, SumOp> (prefix SUM, the real `t1 + t2`): as long as every prefix sum stays below u64::MAX (the stated precondition of get/set through lemma_sum_get_ok / lemma_sum_set_ok - the API states no bound, wrapping/panicking beyond it is not claimed), no addition overflows (every node and every partial accumulation is bounded by a prefix sum), get(q) is the exact mathematical sum of all values set at indices <= q and set(i, v) adds v to exactly the prefixes q >= i; a fresh tree has all prefix sums 0'],
+        'undecided': ['SmallInts at (S, B) instantiations other than (i8, isize)', 'FenwickTree at element types other than u64 (and (u32,u32)/PrevPtr in C19); prefix sums reaching u64::MAX (precondition)'],
         'trusted': ['BTreeMap stub (new/insert/get over a Map view)', 'num_traits::cast pinned at (isize->i8), (i8->isize), (i32->i8); i8::max_value', 'Enumerate<slice::Iter>::next model', 'cmp::max std spec'],
         'level_text': 'Verus proves, for every width, fill state and operation history, that BitEnc equals a plain vector of masked values (data-structure invariant + whole-view postconditions on every public operation).',
         'level_note': 'Trusted: Verus/Z3, rustc semantics as encoded by Verus, vstd Vec specs, usize = 64 bit, the weave tool; see evidence assumptions.',
